@@ -63,7 +63,8 @@ Apply(op, r) ==
     [] op = "St404" -> [r EXCEPT !.status = 404]
     [] op = "St999" -> [r EXCEPT !.status = 999]
     [] op = "Msg"   -> [r EXCEPT !.msg = TRUE]
-    [] op = "SetXA1" -> [r EXCEPT !.xa = <<"1">>]
+    \* Set replaces the first value of the name (the documented multimap semantics, cf. C29)
+    [] op = "SetXA1" -> [r EXCEPT !.xa = IF @ = <<>> THEN <<"1">> ELSE <<"1">> \o Tail(@)]
     [] op = "AddXA2" -> [r EXCEPT !.xa = Append(@, "2")]
     [] op = "DelXA"  -> [r EXCEPT !.xa = <<>>]
     [] op = "CType"  -> [r EXCEPT !.ctype = "application/json"]
